@@ -60,10 +60,24 @@ class _Cv:
         elif ev == "transport-lost":
             c.closed = True
         elif ev == "shutdown-write-by-another-thread":
-            c.eof_sent = True
+            # the REAL shutdown_write runs in the other thread (the waiter has released the channel lock); the waiter only gets
+            # out of wait() if that call notifies this condition - a later window adjust from a peer that has just been told
+            # "no more data" is not something a sender can count on
+            self.notified = False
+            c.lock.release()
+            try:
+                c.shutdown_write()
+            finally:
+                c.lock.acquire()
+            if not c.eof_sent:
+                raise AssertionError("shutdown_write did not mark the channel")
+            if not self.notified:
+                raise NonTermination("shutdown_write() by another thread does not wake a sender blocked on the send window")
 
     def notify_all(self):
-        pass
+        self.notified = True
+
+    notify = notify_all
 
 
 def sendall_case(stderr):
@@ -113,7 +127,8 @@ def sendall_case(stderr):
                     outcome = "timeout"
                 except socket.error:
                     outcome = "error"
-        handed = b"".join(bytes(fields_of(m)[-1][1]) for m in sent)
+        datamsgs = [m for m in sent if bytes(fields_of(m)[0][1])[:1] in (b"\x5e", b"\x5f")]      # not the EOF of a shutdown_write
+        handed = b"".join(bytes(fields_of(m)[-1][1]) for m in datamsgs)
         if outcome == "returned":
             ctx.prove(handed == data, "returns-only-after-every-byte-was-handed-to-the-transport")
         else:
